@@ -83,6 +83,10 @@ func scenarios(tier string) []scenario {
 			T("A2", "T1", "tg"), T("A3", "A2"), bad(T("A4", "A3", "tg2"), "double-spend")}},
 		{"equal-work-ties", append(append([]bspec{}, trunk3...),
 			T("B3", "T2", "u2"), T("C2", "T1"), T("C3", "C2", "tg"))},
+		// two branches overtaking each other in turn: delivered A2, B2 B3, A3 A4 the node
+		// switches A -> B -> A (the second reorganisation re-attaches blocks it detached before)
+		{"there-and-back", []bspec{T("T1", "g"), T("A2", "T1", "tg"), T("B2", "T1", "tg2"), T("B3", "B2"),
+			T("A3", "A2", "u1"), T("A4", "A3")}},
 	}
 	if tier != "thorough" {
 		return q
@@ -101,6 +105,8 @@ func scenarios(tier string) []scenario {
 			T("B4", "T3", "u1"), T("C3", "T2", "u2"), T("C4", "C3"), T("C5", "C4"), T("B5", "B4"), T("T5", "T4")}},
 		{"invalid-pos2-double-spend", append(append([]bspec{}, trunk4...),
 			T("A3", "T2", "u2"), bad(T("A4", "A3", "tg2"), "double-spend"), T("A5", "A4"), T("B4", "T3"), T("A6", "A5"))},
+		{"there-and-back+", []bspec{T("T1", "g"), T("T2", "T1", "tg"), T("A3", "T2", "u1"), T("B3", "T2", "u2"), T("B4", "B3"),
+			T("A4", "A3"), T("A5", "A4"), T("B5", "B4"), T("B6", "B5"), T("C3", "T2")}},
 		{"invalid-pos1-coinbase", append(append([]bspec{}, trunk4...),
 			badcb(T("A3", "T2")), T("A4", "A3"), T("A5", "A4"), T("B4", "T3"), T("C3", "T2"))},
 	}
